@@ -145,3 +145,49 @@ META["C06"] = {
     "note": "Trusts the semantic reading of a pattern (optional ^ = exact, optional trailing $, otherwise suffix).",
     "technique": "property-based testing (rapid) with implication oracle + exhaustive small-alphabet enumeration; state-machine histories for broker/proxy parts",
 }
+
+PROPS["C10"] = {
+    "rule": ("c10_armor: payload sizes 0..150 KB biased to word (24-byte) and element (992-word) boundaries +-few bytes, "
+             "generated encoder Write sizes, decoder Read sizes and source fragmentation; then either cache-style rewriting "
+             "(every whitespace run inside pre replaced by a generated ASCII-whitespace run, markup/text/comments inserted "
+             "outside pre, body wrapped in a div) or one injected defect (unknown version, stray/nested/unterminated pre, "
+             "oversized element, bad base64). Oracles: decode(encode(x)) = x; structure scanned by the harness' own scanner "
+             "against a verbatim copy of the AMP boilerplate (words <= 32 bytes, element text <= 32 KiB, words spell '0'+base64); "
+             "decode(rewrite(doc)) = x; defective documents must yield an error. Non-trivial = payload > one word with a "
+             "non-trivial chunking, rewrite or defect. c10_decoder: documents assembled from markup/base64/whitespace pieces, "
+             "optionally followed by an endless markup-free text run from a counting reader: no panic, termination, failure "
+             "after at most 1 MiB consumed. Non-trivial = >= 3 pieces with a pre tag."),
+    "assumptions": ["whitespace rewriting keeps each pre element within the documented 32 KiB (the decoder may reject oversized elements)",
+                    "markup inserted outside pre is well-formed and contains no pre/raw-text elements"],
+    "units": [
+        U("c10_armor", "ext", "c10", "^TestVerifC10Armor$", (800, 10000), wedge_is_violation=True),
+        U("c10_decoder", "ext", "c10", "^TestVerifC10Decoder$", (1500, 20000), wedge_is_violation=True),
+    ],
+}
+META["C10"] = {
+    "level": "Sampled exploration with boundary-biased sizes and generated chunkings/rewrites; round-trip, structural and metamorphic oracles; hostile decoder inputs including an endless reader that makes unbounded buffering observable without a wall clock; native fuzzing of the decoder in the thorough tier.",
+    "note": "Trusts the harness' copy of the AMP boilerplate and its 30-line element scanner; a decoder-goroutine panic is observed as a process crash attributed through the case journal.",
+    "technique": "property-based testing (rapid): round-trip, structural validity and metamorphic (cache rewriting) oracles; fault injection into documents; native fuzzing",
+}
+
+PROPS["C11"] = {
+    "rule": ("c11_path: data 0..300 bytes x cache-breaking padding of any bytes (slashes included): DecodePath('0'+padding+'/'+b64url(data)) "
+             "= data, DecodePath(EncodePath(data)) = data, EncodePath output survives a URL round trip; malformed paths "
+             "(no version, unknown version, no slash, bad base64) must fail. Non-trivial = padding with a slash, data length "
+             "not a multiple of 3, or a malformed path. c11_cacheurl: publisher URLs built as the client builds them over "
+             "generated domains (IDN, hyphens at positions 3-4, 63-byte labels, long names -> fallback, leading digits), "
+             "clean paths, queries; cache URLs with path/port/userinfo; error inputs. Oracle = reference implementation of "
+             "the AMP combined algorithm (basic + SHA-256/base32 fallback) and of the /c[/s]/host/path layout. Non-trivial = "
+             "fallback prefix, 3-4 hyphen rule, or an error class."),
+    "assumptions": ["publisher paths are clean (no empty or dot segments) and end in the encoded poll, as produced by the client (ResolveReference + EncodePath); trailing-slash publisher paths are outside the generated domain",
+                    "punycode conversion (idna.ToUnicode/ToASCII) is shared with the implementation; the remaining steps of the prefix algorithm are re-implemented"],
+    "units": [
+        U("c11_path", "ext", "c11", "^TestVerifC11Path$", (4000, 40000), shards=(4, 8)),
+        U("c11_cacheurl", "ext", "c11", "^TestVerifC11CacheURL$", (4000, 40000), shards=(4, 8)),
+    ],
+}
+META["C11"] = {
+    "level": "Sampled exploration: round-trip oracle for the path codec, reference-implementation oracle for the cache URL, differential oracle between the broker's AMP and POST endpoints, metamorphic oracle (front vs no front) and size/status boundary generation for the client's rendezvous exchange.",
+    "note": "Trusts the harness' reading of the AMP cache URL specification and the recording RoundTripper standing in for the network.",
+    "technique": "property-based testing (rapid): round-trip, reference-model, differential (AMP vs POST endpoint) and metamorphic (fronting) oracles",
+}
